@@ -230,8 +230,8 @@ def check(prop, tier, only=None, verbose=False):
     seen = set()
     vio_out = []
     for v in violations:
-        key = (v['cond'], v['reason'][:100])
-        if key in seen:
+        key = (v['cond'], v['reason'].split(':')[0][:100])
+        if key in seen or len(seen) >= 12:
             continue
         seen.add(key)
         n = len(vio_out) + 1
